@@ -64,7 +64,7 @@ theorem c16_invalid (s : App) (p : ParamArgs) (hv : paramsValid p = false) :
   simp [paramsMsg, isAdmin, hv]
 
 theorem c16_invalid_cases (p : ParamArgs) :
-    paramsValid p = false ↔ (p.unbond ≤ 0 ∨ p.maxVals ≤ 0 ∨ p.maxEntries ≤ 0 ∨ p.hist < 0 ∨ p.denom = 2 ∨ p.minComm < 0 ∨ p.minComm > E18) := by
+    paramsValid p = false ↔ (p.unbond ≤ 0 ∨ p.maxVals ≤ 0 ∨ p.maxEntries ≤ 0 ∨ p.hist < 0 ∨ p.denom ≥ 2 ∨ p.minComm < 0 ∨ p.minComm > E18) := by
   simp only [paramsValid, Bool.and_eq_false_iff, decide_eq_false_iff_not]
   omega
 
